@@ -75,10 +75,12 @@ class Clo:
 class Iter:
     """slice iterator abstraction: elements base[pos .. end); adaptors are kept in `kind` (tuple of
     names), `extra` = numbering start of an enumerate adaptor, `fns` = closures of map/filter adaptors"""
-    __slots__ = ('base', 'pos', 'end', 'kind', 'extra', 'fns')
+    __slots__ = ('base', 'pos', 'end', 'kind', 'extra', 'fns', 'zipped')
 
-    def __init__(self, base, pos, end, kind=(), extra=None, fns=()):
+    def __init__(self, base, pos, end, kind=(), extra=None, fns=(), zipped=None):
         self.base, self.pos, self.end, self.kind, self.extra, self.fns = base, pos, end, tuple(kind), extra, list(fns)
+        # zip partner, advancing in lock step: (base2, start2, end2, start1, kind2); element for index i is base2[start2 + i - start1]
+        self.zipped = zipped
 
 
 class ListV:
@@ -114,7 +116,9 @@ def clone_val(v, memo):
     if isinstance(v, Clo):
         return Clo(v.path, [clone_val(x, memo) for x in v.upvars])
     if isinstance(v, Iter):
-        return Iter(clone_val(v.base, memo), v.pos, v.end, v.kind, v.extra, [clone_val(x, memo) for x in v.fns])
+        z = v.zipped
+        return Iter(clone_val(v.base, memo), v.pos, v.end, v.kind, v.extra, [clone_val(x, memo) for x in v.fns],
+                    None if z is None else (clone_val(z[0], memo),) + tuple(z[1:]))
     if isinstance(v, ListV):
         return ListV(list(v.parts))
     if isinstance(v, Uninit):
@@ -463,7 +467,11 @@ class Interp:
         if isinstance(v, Clo):
             return ('closure', v.path, tuple(self.to_term(st, x) for x in v.upvars))
         if isinstance(v, Iter):
-            return ('iter', v.kind, self.to_term(st, v.base) if v.base is not None else None, v.pos, v.end, tuple(self.to_term(st, f) for f in v.fns))
+            t = ('iter', v.kind, self.to_term(st, v.base) if v.base is not None else None, v.pos, v.end, tuple(self.to_term(st, f) for f in v.fns))
+            if v.zipped is not None:
+                z = v.zipped
+                t = t + (('zip', self.to_term(st, z[0]) if z[0] is not None else None, z[1], z[2], z[3]),)
+            return t
         if isinstance(v, ListV):
             return ('list', tuple(v.parts))
         if isinstance(v, Uninit):
@@ -1351,7 +1359,7 @@ class Interp:
                     return Sym(T.var('%s@bb%d#%d.e%d' % (hint, head, inst, len(mapping))), v.path)
                 return Adt(v.path, v.variant, v.vidx, [hv(x, '%s.%d' % (hint, i)) for i, x in enumerate(v.xs)], v.is_enum)
             if isinstance(v, Iter):
-                return Iter(v.base, hv(v.pos, hint + '.pos', 'usize'), hv(v.end, hint + '.end', 'usize') if 'rev' in v.kind else v.end, v.kind, v.extra, v.fns)
+                return Iter(v.base, hv(v.pos, hint + '.pos', 'usize'), hv(v.end, hint + '.end', 'usize') if 'rev' in v.kind else v.end, v.kind, v.extra, v.fns, v.zipped)
             if isinstance(v, ListV):
                 return Sym(T.var('%s@bb%d#%d.l%d' % (hint, head, inst, len(mapping))), 'std::vec::Vec<?>')
             if isinstance(v, Sym):
@@ -1647,6 +1655,8 @@ class Interp:
             # call through a function value (closure held in a local)
             fv = self.operand(st, fr, c['func'])
             raise Unanalysable('indirect call in %s' % fn.path, site)
+        if name == '#call_closure':
+            return self.call_closure_value(st, fr, t, args, work, out)
         if self.on_call:
             r = self.on_call(self, st, name, args, site, c)
             if r is not None:
@@ -1745,6 +1755,41 @@ class Interp:
         nf.ret_bb = target
         st.frames.append(nf)
         return False
+
+    def call_closure_value(self, st, fr, t, args, work, out):
+        """pseudo-call emitted by the iterator lowering (lower.py): args[0] is a closure value, a reference to one, a
+        function item, or (from_iter = k) a reference to an iterator whose k-th adaptor closure is meant"""
+        c, argops, dest, target, line = t[1], t[2], t[3], t[4], t[5]
+        site = '%s:%d' % (fr.fn.file, line)
+        cv = args[0]
+        env = cv
+        k = c.get('from_iter')
+        if k is not None:
+            it = cv
+            while isinstance(it, Ref):
+                it = self.load(st, it.cell, it.path)
+            if not isinstance(it, Iter) or k >= len(it.fns):
+                raise Unanalysable('adaptor closure %d of %r' % (k, it), site)
+            cv = env = it.fns[k]
+        while isinstance(cv, Ref):
+            cv = self.load(st, cv.cell, cv.path)
+        if isinstance(cv, Clo):
+            cfn = self.crate.fns.get(cv.path)
+            if cfn is None:
+                raise Unanalysable('closure body %s not found' % cv.path, site)
+            if is_ref_ty(cfn.locals[1]['ty']):
+                env = env if isinstance(env, Ref) else Ref(Cell(cv), ())
+                while isinstance(env, Ref) and isinstance(self.load(st, env.cell, env.path), Ref):
+                    env = self.load(st, env.cell, env.path)
+            else:
+                env = cv
+            return self.enter(st, fr, cfn, [env] + list(args[1:]), dest, target, out)
+        if isinstance(cv, tuple) and cv and cv[0] == 'fnitem':
+            lf = self.crate.fns.get(cv[1])
+            c2 = {'callee': cv[1], 'resolved': cv[1], 'local': lf is not None, 'generics': list(cv[2]) if len(cv) > 2 and isinstance(cv[2], (list, tuple)) else [],
+                  'res_kind': 'Fn', 'func': None, 'arg_tys': list(c.get('arg_tys') or [])}
+            return self.do_call(st, fr, ['call', c2, list(argops[1:]), dest, target, line, t[6]], work, out)
+        return self.uninterp_call(st, fr, 'std::ops::FnMut::call_mut', args, dest, target, c, out)
 
     def call_closure_shim(self, st, fr, cfn, args, dest, target, out):
         """Fn*/call shims: args = (closure or &closure, tuple of arguments)"""
